@@ -12,15 +12,21 @@
 
 typedef long long spec_int;
 
-/* Appendix E: "fQuotient(a, b) = the greatest integer less than or equal to a/b"   (b > 0) */
+/* Appendix E: "fQuotient(a, b) = the greatest integer less than or equal to a/b"   (b > 0).
+ * Written with / and % only (no multiplication: cbmc's overflow check on a 64-bit product is very expensive). */
 static spec_int spec_fquot(spec_int a, spec_int b)
 {
   spec_int q = a / b;                 /* C: truncation toward zero */
-  if ((a % b) != 0 && (a < 0)) q -= 1;  /* floor for negative non-multiples */
+  if ((a % b) < 0) q -= 1;            /* negative non-multiple: floor is one below the truncated quotient */
   return q;
 }
-/* Appendix E: "modulo(a, b) = a - fQuotient(a,b)*b" */
-static spec_int spec_modulo(spec_int a, spec_int b) { return a - spec_fquot(a, b) * b; }
+/* Appendix E: "modulo(a, b) = a - fQuotient(a,b)*b"  =  the unique r in [0, b) congruent to a */
+static spec_int spec_modulo(spec_int a, spec_int b)
+{
+  spec_int r = a % b;                 /* C: sign of the dividend */
+  if (r < 0) r += b;
+  return r;
+}
 /* Appendix E: "fQuotient(a, low, high) = fQuotient(a - low, high - low)" */
 static spec_int spec_fquot3(spec_int a, spec_int low, spec_int high) { return spec_fquot(a - low, high - low); }
 /* Appendix E: "modulo(a, low, high) = modulo(a - low, high - low) + low" */
